@@ -8,6 +8,7 @@ resolution; unit header wiring; CompileUnit/TypeUnit sibling agreement.
 """
 import ast
 import copy
+from sa.canon import U
 from sa.world import get_world
 from sa import dwconf, layout, expr, paths, streams, dispatch, literals, hrules, owner
 from sa.absint import FuncV, Unknown, Node
@@ -118,7 +119,7 @@ def check_abbrev(ctx, w):
     tests = [expr.cond_str(n.test, env) for n in ast.walk(f.node) if isinstance(n, ast.If)]
     ctx.ob('L-CONF', f.construct, 'code 0 ends the table', tests == [expr.spec_cond('decl_code == 0')], got=tests)
     tr = expr.assign_trace(f.node, env)
-    ok = [ast.unparse(n) for n in ast.walk(f.node) if isinstance(n, ast.Assign) and isinstance(n.targets[0], ast.Subscript)] == \
+    ok = [U(n) for n in ast.walk(f.node) if isinstance(n, ast.Assign) and isinstance(n.targets[0], ast.Subscript)] == \
         ['map[decl_code] = AbbrevDecl(decl_code, declaration)']
     ctx.ob('L-CONF', f.construct, 'declaration stored under its code', ok)
     g = w.model.func('dwarf/abbrevtable.py', 'AbbrevDecl.__init__')
@@ -148,10 +149,10 @@ def check_initlen(ctx, w):
                     asg = {}
                     for st in p.stmts():
                         if isinstance(st, ast.Assign) and isinstance(st.targets[0], ast.Subscript):
-                            asg[ast.unparse(st.targets[0])] = ast.unparse(st.value)
+                            asg[U(st.targets[0])] = U(st.value)
                     outcome = ('return', expr.nfs(p.end[1], env), asg.get("context['is64']"))
                 elif p.end[0] == 'raise':
-                    outcome = ('raise', 'ConstructError' in ast.unparse(p.end[1]) if p.end[1] is not None else False, None)
+                    outcome = ('raise', 'ConstructError' in U(p.end[1]) if p.end[1] is not None else False, None)
         if pt < 0xffffff00:
             want = ('return', 'first', 'False')
         elif pt == 0xffffffff:
@@ -213,10 +214,10 @@ def check_parse_die(ctx, w):
     f = w.model.func(DIE, 'DIE._parse_DIE')
     env = expr.FEnv(f.node, inline=False)
     tr = expr.assign_trace(f.node, env)
-    src = ast.unparse(f.node)
+    src = U(f.node)
     try_nodes = [n for n in f.node.body if isinstance(n, ast.Try)]
     body = try_nodes[0].body if try_nodes else f.node.body
-    firsts = [ast.unparse(s).split('\n')[0] for s in body[:5]]
+    firsts = [U(s).split('\n')[0] for s in body[:5]]
     ctx.ob('W-DIE', f.construct, 'absolute seek to the entry offset before the code is read',
            'stream.seek(self.offset)' in firsts and firsts.index('stream.seek(self.offset)') < [i for i, s in enumerate(firsts) if 'abbrev_code' in s][0],
            got=firsts, msg='DIE parse does not start with stream.seek(self.offset)')
@@ -227,7 +228,7 @@ def check_parse_die(ctx, w):
     # null entry path returns right after setting size
     ifs = [n for n in body if isinstance(n, ast.If)]
     ok = bool(ifs) and expr.cond_str(ifs[0].test, env) == expr.spec_cond('abbrev_code == 0') and \
-        [ast.unparse(s) for s in ifs[0].body] == ['self.size = stream.tell() - self.offset', 'return']
+        [U(s) for s in ifs[0].body] == ['self.size = stream.tell() - self.offset', 'return']
     ctx.ob('W-DIE', f.construct, 'code 0 => null entry of the bytes consumed', ok)
     ctx.ob('W-DIE', f.construct, 'declaration from the unit\'s abbreviation table by code',
            tr.get('abbrev_decl') == [('=', 'get_abbrev(get_abbrev_table(cu),abbrev_code)')], got=tr.get('abbrev_decl'))
@@ -239,7 +240,7 @@ def check_parse_die(ctx, w):
     ctx.ob('W-DIE', f.construct, 'attributes in abbreviation order', ok, got=[expr.nfs(l.iter, env) for l in loops])
     if loops:
         lb = loops[0].body
-        order = [ast.unparse(s).split('\n')[0] for s in lb]
+        order = [U(s).split('\n')[0] for s in lb]
         ctx.ob('W-DIE', f.construct, 'attr_offset = tell() before the value is parsed',
                'attr_offset = stream.tell()' in order and order.index('attr_offset = stream.tell()') < [i for i, s in enumerate(order) if s.startswith('if form')][0],
                got=order)
@@ -247,7 +248,7 @@ def check_parse_die(ctx, w):
         got = {}
         if chains:
             for b in chains[0]:
-                asg = dict((ast.unparse(s.targets[0]), expr.nfs(s.value, env)) for s in b.body if isinstance(s, ast.Assign))
+                asg = dict((U(s.targets[0]), expr.nfs(s.value, env)) for s in b.body if isinstance(s, ast.Assign))
                 key = 'else' if b.is_else else tuple(sorted(b.keys))
                 got[key] = asg
         want = {
@@ -261,9 +262,9 @@ def check_parse_die(ctx, w):
         kw = dict((k.arg, expr.nfs(k.value, env)) for k in av[0].keywords) if av else None
         ctx.ob('W-DIE', f.construct, 'AttributeValue fields', kw == {'name': 'name', 'form': 'form', 'value': 'value', 'raw_value': 'raw_value',
                                                                      'offset': 'attr_offset', 'indirection_length': 'indirection_length'}, got=kw)
-        ctx.ob('W-DIE', f.construct, 'stored under the attribute name', 'self.attributes[name] = AttributeValue(' in ast.unparse(loops[0]))
-    ctx.ob('W-DIE', f.construct, 'construct errors wrapped', any(isinstance(n, ast.ExceptHandler) and 'ConstructError' in ast.unparse(n.type) and
-           'ELFParseError' in ast.unparse(n) for n in ast.walk(f.node)))
+        ctx.ob('W-DIE', f.construct, 'stored under the attribute name', 'self.attributes[name] = AttributeValue(' in U(loops[0]))
+    ctx.ob('W-DIE', f.construct, 'construct errors wrapped', any(isinstance(n, ast.ExceptHandler) and 'ConstructError' in U(n.type) and
+           'ELFParseError' in U(n) for n in ast.walk(f.node)))
     # _resolve_indirect
     g = w.model.func(DIE, 'DIE._resolve_indirect')
     genv = expr.FEnv(g.node, inline=False)
@@ -272,9 +273,9 @@ def check_parse_die(ctx, w):
         tr.get('real_form') == [('=', 'index(DW_FORM_raw2name,real_form_code)')] and \
         tr.get('raw_value') == [('=', 'struct_parse(index(Dwarf_dw_form,real_form),stream)')] and tr.get('length') == [('=', '1'), ('+=', '1')]
     ctx.ob('W-DIE', g.construct, 'form code ULEB -> raw2name -> value, repeated while indirect', ok, got=tr)
-    rets = [(expr.nfs(r, genv), [(expr.cond_str(t, genv), pol) for t, pol in c]) for c, r, p in paths.returns_with_conds(g.node)]
+    rets = [(expr.nfs(r, genv), [expr.CP(expr.cond_str(t, genv), pol) for t, pol in c]) for c, r, p in paths.returns_with_conds(g.node)]
     ctx.ob('W-DIE', g.construct, 'returns (form, raw, length) at the first non-indirect form',
-           all(r[0] == 'tuple(real_form,raw_value,length)' and (expr.spec_cond("real_form != 'DW_FORM_indirect'"), True) in r[1] for r in rets) and bool(rets),
+           all(r[0] == 'tuple(real_form,raw_value,length)' and expr.CP(expr.spec_cond("real_form != 'DW_FORM_indirect'"), True) in r[1] for r in rets) and bool(rets),
            got=rets[:2])
     # reverse form map is the exact inverse (shared with C17)
     fwd = w.table('dwarf/enums.py', 'ENUM_DW_FORM')
@@ -297,7 +298,7 @@ def check_translate(ctx, w):
             continue
         rets = [expr.nfs(r.value, env) for s in b.body for r in ([s] if isinstance(s, ast.Return) else []) ]
         extra = sorted(expr.cond_str(x, env) for x in b.extra)
-        asg = dict((ast.unparse(s.targets[0]), expr.nfs(s.value, env)) for s in b.body if isinstance(s, ast.Assign))
+        asg = dict((U(s.targets[0]), expr.nfs(s.value, env)) for s in b.body if isinstance(s, ast.Assign))
         for k in b.keys:
             got.setdefault(k, (rets, extra, asg))
     TI = 'T(translate_indirect)'
@@ -320,7 +321,7 @@ def check_translate(ctx, w):
         ctx.ob('G-TRANS', f.construct, k, g is not None and g[0] == rets and g[1] == extra, got=g[:2] if g else None, expected=(rets, extra),
                msg='attribute value of this form is translated through the wrong table/condition', sample='translate %s -> %s' % (k, rets))
     # which section stream feeds the two list forms (the normal form drops the container)
-    src = ast.unparse(f.node)
+    src = U(f.node)
     ctx.ob('G-TRANS', f.construct, 'loclistx reads .debug_loclists, rnglistx reads .debug_rnglists',
            "_resolve_via_offset_table(self.dwarfinfo.debug_loclists_sec.stream, self.cu, raw_value, 'DW_AT_loclists_base')" in src and
            "_resolve_via_offset_table(self.dwarfinfo.debug_rnglists_sec.stream, self.cu, raw_value, 'DW_AT_rnglists_base')" in src)
@@ -356,15 +357,15 @@ def check_translate(ctx, w):
     want = expr.spec_nf("_get_base_offset(cu, base_attribute_name) + struct_parse(the_Dwarf_offset, stream, "
                         "_get_base_offset(cu, base_attribute_name) + index * (4 if dwarf_format == 32 else 8))")
     ctx.ob('G-TRANS', h.construct, 'base + word at base + index*(4|8)', rets == [want], got=rets, expected=want)
-    ctx.ob('I-WIDTH', h.construct, 'offset size 4/8 by format', 'offset_size = 4 if cu.structs.dwarf_format == 32 else 8' in ast.unparse(h.node))
-    ctx.ob('G-TRANS', h.construct, 'under preserve_stream_pos', any(isinstance(n, ast.With) and 'preserve_stream_pos(stream)' in ast.unparse(n.items[0]) and
+    ctx.ob('I-WIDTH', h.construct, 'offset size 4/8 by format', 'offset_size = 4 if cu.structs.dwarf_format == 32 else 8' in U(h.node))
+    ctx.ob('G-TRANS', h.construct, 'under preserve_stream_pos', any(isinstance(n, ast.With) and 'preserve_stream_pos(stream)' in U(n.items[0]) and
            any(isinstance(x, ast.Return) for x in ast.walk(n)) for n in ast.walk(h.node)))
     h = w.model.func(DI, 'DWARFInfo.get_addr')
     henv = expr.FEnv(h.node, params=('cu', 'addr_index'))
     ops = [o.t() for o in streams.func_ops(h.node, henv) if o.kind == 'parse']
     want = ('parse', 'stream', 'the_Dwarf_target_addr', expr.spec_nf("_get_base_offset(cu,'DW_AT_addr_base') + addr_index*address_size"))
     ctx.ob('G-TRANS', h.construct, 'address at addr_base + index*address_size', ops == [want], got=ops, expected=want)
-    ctx.ob('G-TRANS', h.construct, 'reads .debug_addr', 'self.debug_addr_sec.stream' in ast.unparse(h.node))
+    ctx.ob('G-TRANS', h.construct, 'reads .debug_addr', 'self.debug_addr_sec.stream' in U(h.node))
     h = w.model.func('dwarf/dwarf_util.py', '_get_base_offset')
     henv = expr.FEnv(h.node, params=('cu', 'base_attribute_name'), inline=False)
     rets = [expr.nfs(r.value, henv) for r in expr.returns_of(h.node)]
@@ -384,7 +385,7 @@ def check_children(ctx, w):
                msg='next-sibling position: first child = parent end; no children: += size; sibling ref: value + unit offset; '
                    'ref_addr: value; else terminator end')
         # which objects the formulas read (the normal form drops containers): compare source of the five assignments
-        srcs = [ast.unparse(n) for n in ast.walk(f.node) if isinstance(n, (ast.Assign, ast.AugAssign)) and 'cur_offset' in ast.unparse(n.targets[0] if isinstance(n, ast.Assign) else n.target)]
+        srcs = [U(n) for n in ast.walk(f.node) if isinstance(n, (ast.Assign, ast.AugAssign)) and 'cur_offset' in U(n.targets[0] if isinstance(n, ast.Assign) else n.target)]
         want_src = ['cur_offset = die.offset + die.size', 'cur_offset += child.size', 'cur_offset = sibling.value + self.%s' % off,
                     'cur_offset = sibling.value', 'cur_offset = child._terminator.offset + child._terminator.size']
         ctx.ob('E-i', f.construct, 'cursor operands', sorted(srcs) == sorted(want_src), got=srcs, expected=want_src)
@@ -398,10 +399,10 @@ def check_children(ctx, w):
         ctx.ob('SIB', f.construct, 'unit-relative form set', sets == [REL_FORMS], got=[sorted(s ^ REL_FORMS) for s in sets],
                msg='the set of unit-relative reference forms differs from the specification / the sibling modules')
         # null child => terminator recorded, iteration ends; children get their parent set; child comes from the cache
-        body = ast.unparse(f.node)
+        body = U(f.node)
         nullifs = [n for n in ast.walk(f.node) if isinstance(n, ast.If) and expr.cond_str(n.test, env) == 'T(is_null(child))']
         ctx.ob('E-i', f.construct, 'terminator recorded and iteration ends on the null entry',
-               len(nullifs) == 1 and [ast.unparse(x) for x in nullifs[0].body] == ['die._terminator = child', 'return'])
+               len(nullifs) == 1 and [U(x) for x in nullifs[0].body] == ['die._terminator = child', 'return'])
         ctx.ob('E-i', f.construct, 'child from _get_cached_DIE(cur_offset), parent set',
                tr.get('child') == [('=', '_get_cached_DIE(self,cur_offset)')] and 'child.set_parent(die)' in body, got=tr.get('child'))
     f = w.model.func(DIE, 'DIE.get_DIE_from_attribute')
@@ -518,7 +519,7 @@ def check_unit(ctx, w):
         f = w.model.func(DI, q)
         env = expr.FEnv(f.node, params=('offset',), inline=False)
         tr = expr.assign_trace(f.node, env)
-        src = ast.unparse(f.node)
+        src = U(f.node)
         ctx.ob('W-UNIT', f.construct, 'format from the first word', tr.get('dwarf_format') == [('=', expr.spec_nf('64 if initial_length == 0xFFFFFFFF else 32'))] and
                tr.get('initial_length') == [('=', 'struct_parse(the_Dwarf_uint32,stream,offset)')], got=(tr.get('dwarf_format'), tr.get('initial_length')),
                msg='DWARF format is not 64 exactly when the first word is 0xffffffff')
@@ -552,12 +553,12 @@ def check_unit(ctx, w):
         ctx.ob('W-UNIT', g.construct, 'next unit = offset + unit_length + initial length size', off is not None and off[-1] == want_adv, got=off, expected=want_adv)
         whiles = [n for n in ast.walk(g.node) if isinstance(n, ast.While)]
         ctx.ob('W-UNIT', g.construct, 'until the section size', len(whiles) == 1 and expr.cond_str(whiles[0].test, genv) == expr.spec_cond('offset < size') and
-               'self.%s.size' % sz in ast.unparse(whiles[0].test), got=[ast.unparse(x.test) for x in whiles])
-        ctx.ob('W-UNIT', g.construct, 'unit parsed at offset', '%s(offset)' % parse in ast.unparse(g.node))
+               'self.%s.size' % sz in U(whiles[0].test), got=[U(x.test) for x in whiles])
+        ctx.ob('W-UNIT', g.construct, 'unit parsed at offset', '%s(offset)' % parse in U(g.node))
     g = w.model.func(DI, 'DWARFInfo.get_abbrev_table')
     genv = expr.FEnv(g.node, params=('offset',))
     ctx.ob('W-UNIT', g.construct, 'table parsed from .debug_abbrev at the offset, cached by offset',
-           'self._abbrevtable_cache[offset] = AbbrevTable(structs=self.structs, stream=self.debug_abbrev_sec.stream, offset=offset)' in ast.unparse(g.node))
+           'self._abbrevtable_cache[offset] = AbbrevTable(structs=self.structs, stream=self.debug_abbrev_sec.stream, offset=offset)' in U(g.node))
     for mod, cls in ((CU, 'CompileUnit'), (TU, 'TypeUnit')):
         g = w.model.func(mod, cls + '.get_abbrev_table')
         tr = expr.assign_trace(g.node, expr.FEnv(g.node))
